@@ -13,19 +13,25 @@ TIERS = {
 }
 RULE = ('case = one tree, a protected node P in it and a list of (target at or below '
         'P, operation with arguments that are valid on an unprotected twin and change '
-        'it); each is executed under several protection configurations (P sealed by '
+        'it) plus operations issued at a strict ancestor of P whose written locations '
+        'lie at or below P (rebind / sym_rebind / pg.patch with deep paths, pure or '
+        'mixed with writes outside P, rebind[fn], clone(override=...)); each is executed under several protection configurations (P sealed by '
         'flag / sealed then unsealed / accessor flag off, nested pg.as_sealed and '
         'pg.allow_writable_accessors scopes with values True/False/None to depth 3) '
         'and compared with the three-line model "innermost scope value, else object '
         'flag". Non-trivial = at least 4 operations were expected to be refused and 2 '
         'to be allowed; distinct by the (operation, configuration, verdict) sequence.')
 REQUIRED_COUNTERS = ['expected_refused', 'expected_allowed', 'refused_ok', 'allowed_ok',
-                     'deep_seal_checks']
+                     'deep_seal_checks', 'expected_refused_from_above',
+                     'expected_allowed_from_above']
 ASSUMPTIONS = [
     'operations are issued with arguments that succeed and change an unprotected twin, so protection is the only reason to refuse',
     'descendants of a sealed node are not unsealed individually (the property does not say which flag wins)',
     'mutators other than accessor assignment/deletion and rebind are a don\'t-care while accessor writes are disabled',
     'operations that return a new value (copy, +, *, clone) may succeed but must leave the tree unchanged',
+    'a batch issued above P that also writes outside P must be refused and leave P unchanged; whether the writes outside P were applied before the refusal is a don\'t-care (the quantifier speaks of operations at P and below)',
+    'replacing the slot that holds P (or an ancestor of P) from above does not change P itself: not generated',
+    'pg.Dict.update / |= take keys, not key paths, so they cannot address a location below P from above',
 ]
 
 ACCESSOR_OPS = {'List.__setitem__[int]', 'List.__setitem__[slice]', 'List.__delitem__[int]',
@@ -118,6 +124,86 @@ def construct_sealed(node):
   return pg.List([detached(v) for v in node.sym_values()], sealed=True)
 
 
+def gen_above_step(rng, twin, ppath):
+  """A step issued at a strict ancestor A of the protected node P whose written
+  locations lie at or below P (optionally mixed with writes elsewhere below A).
+
+  The step is ordinary step data (op 'rebind' / 'rebind[fn]' / 'clone[override]'
+  at A) with two extra facts known by construction: step['issued'] ==
+  'ancestor' and step['pure'] (every written location is at or below P)."""
+  cut = rng.randrange(len(ppath))               # every strict ancestor
+  apath, down = list(ppath[:cut]), list(ppath[cut:])
+  anode = D.resolve([twin], 0, apath)
+  pnode = D.resolve([twin], 0, ppath)
+  if isinstance(anode, pg.Ref) or isinstance(pnode, pg.Ref):
+    return None
+  vs = H.ValueSource([twin], (0, apath), p_alias=0.1, p_invalid=0.0, typed=False,
+                     allow_root_alias=False)
+  g = O.GenEnv(rng, vs, [twin])
+  r = rng.random()
+  if r < 0.12:
+    args = O.OPS['rebind[fn]'].gen(g, anode)
+    return {'op': 'rebind[fn]', 'at': [0, apath], 'args': args, 'scopes': [],
+            'issued': 'ancestor', 'pure': False}
+  inside = [down + rel for rel in O.rel_targets(pnode, rng)]
+  if not inside:
+    return None
+  if r < 0.22:
+    rel = rng.choice(inside)
+    return {'op': 'clone[override]', 'at': [0, apath],
+            'args': {'deep': rng.random() < 0.5, 'rel': rel,
+                     'v': g.value(O.node_at(anode, rel[:-1]), rel[-1])},
+            'scopes': [], 'issued': 'ancestor', 'pure': True}
+  rng.shuffle(inside)
+  rels = inside[:1 if rng.random() < 0.5 else rng.randint(2, 4)]
+  if rng.random() < 0.4:
+    outside = [rel for rel in O.rel_targets(anode, rng)
+               if not (H.is_prefix(rel, down) or H.is_prefix(down, rel))]
+    rng.shuffle(outside)
+    rels += outside[:rng.randint(1, 2)]
+  rng.shuffle(rels)                             # position of the protected write in the batch
+  rels = O.no_prefix_pairs(rels)
+  if not any(H.is_prefix(down, rel) for rel in rels):
+    return None
+  ups = []
+  for rel in rels:
+    parent = O.node_at(anode, rel[:-1])
+    x = rng.random()
+    if x < 0.15 and isinstance(parent, (pg.Dict, pg.List)):
+      v = ['missing']
+    elif x < 0.3 and isinstance(parent, pg.List):
+      v = ['ins', g.value(parent, rel[-1])]
+    else:
+      v = g.value(parent, rel[-1])
+    ups.append([rel, v])
+  return {'op': 'rebind', 'at': [0, apath],
+          'args': {'updates': ups, 'opts': {}, 'form': 'dict',
+                   'style': rng.choice(['raw', 'keypath', 'str']),
+                   'api': rng.choice(['rebind', 'sym_rebind', 'pg.patch'])},
+          'scopes': [], 'issued': 'ancestor',
+          'pure': all(H.is_prefix(down, rel) for rel in rels)}
+
+
+def execute(forest, step):
+  """O.execute plus the entry point pg.patch(value, {path: value})."""
+  a = step['args']
+  if step['op'] == 'rebind' and a.get('api') == 'pg.patch':
+    node = D.resolve(forest, step['at'][0], step['at'][1])
+    try:
+      with O.scopes(step.get('scopes', ())):
+        return 'ok', pg.patch(node, {O.path_key(r, a['style']): D.build(v, forest)
+                                     for r, v in a['updates']})
+    except Exception as e:  # pylint: disable=broad-except
+      return 'raise', e
+  return O.execute(forest, step)
+
+
+def op_name(step):
+  """Mechanism name of the operation: '@ancestor' when it was issued above the
+  protected node (rebind, sym_rebind and pg.patch share the name 'rebind')."""
+  return step['op'] + ('@ancestor' if step.get('issued') == 'ancestor' else '')
+
+
 def cases(ctx):
   return ctx.params['cases']
 
@@ -136,19 +222,27 @@ def run_case(ctx, i):
   for _ in range(ctx.params['steps']):
     twin = D.build(desc)
     tnodes = [(r, ks, n) for r, ks, n in H.all_nodes([twin]) if (r, ks) in below]
-    step = H.gen_step(rng, [twin], effects=('mutate', 'new'), p_scope={},
-                      op_filter=lambda o: o.name != 'json-roundtrip',
-                      value_source_kwargs=dict(p_alias=0.1, p_invalid=0.0, typed=False,
-                                               allow_root_alias=False),
-                      node_filter=lambda x: (x[0], x[1]) in below)
+    above = bool(ppath) and rng.random() < ctx.params.get('p_above', 0.35)
+    if above:
+      # issued ABOVE the protected node, written locations at or below it
+      step = gen_above_step(rng, twin, ppath)
+    else:
+      step = H.gen_step(rng, [twin], effects=('mutate', 'new'), p_scope={},
+                        op_filter=lambda o: o.name != 'json-roundtrip',
+                        value_source_kwargs=dict(p_alias=0.1, p_invalid=0.0, typed=False,
+                                                 allow_root_alias=False),
+                        node_filter=lambda x: (x[0], x[1]) in below)
     if step is None or not tnodes:
       continue
-    if step['op'] == 'rebind':
+    if step['op'] == 'rebind' and not above:
       step['args']['opts'] = {}
     op = O.OPS[step['op']]
+    pure = step.get('pure', True)
     before = js(twin)
+    tp = D.resolve([twin], 0, ppath)
+    tp_before = js(tp)
     with pg.allow_writable_accessors(True):
-      tstatus, tres = O.execute([twin], step)
+      tstatus, tres = execute([twin], step)
     if tstatus != 'ok':
       c['skipped_invalid_on_twin'] += 1
       continue
@@ -157,6 +251,13 @@ def run_case(ctx, i):
     if mutating and twin_after == before:
       c['skipped_noop_on_twin'] += 1
       continue
+    if mutating and above and js(tp) == tp_before:
+      # the call would not change the protected node: the property is silent
+      c['skipped_above_not_touching_protected'] += 1
+      continue
+    if above:
+      c['issued_above'] += 1
+      c['issued_above_mixed_batch'] += (mutating and not pure)
     for _ in range(3):
       cfg = gen_config(rng)
       root = D.build(desc)
@@ -214,12 +315,14 @@ def run_case(ctx, i):
       wc = innermost(cfg['writable_stack'])
       eff_writable = wc if wc is not None else all(n.accessor_writable for n in conts)
       r_before = js(root)
+      p_before = js(pnode)
       ctx.label = step['op']
       with scope_stacks(cfg['sealed_stack'], cfg['writable_stack']):
-        status, res = O.execute([root], step)
+        status, res = execute([root], step)
       ctx.label = None
       r_after = js(root)
-      c['op:' + step['op']] += 1
+      p_after = js(pnode)           # the protected node by identity
+      c['op:' + op_name(step)] += 1
       ctx.seen('configs', cfg_name(cfg))
       where = (f"{O.show_step(step)} under {cfg_name(cfg)} (protected node at "
                f"{ppath}, tree {D.show(desc)[:300]})")
@@ -237,22 +340,30 @@ def run_case(ctx, i):
       elif eff_sealed:
         n_ref += 1
         c['expected_refused'] += 1
-        mech = f"{step['op']}/{how_protected(cfg, 'sealed')}"
+        mech = f"{op_name(step)}/{how_protected(cfg, 'sealed')}"
         ok = True
+        c['expected_refused_from_above'] += above
         if status == 'ok':
           ctx.violation('sealed-write-succeeded', mech, where, witness); ok = False
         elif not isinstance(res, pg.WritePermissionError):
           ctx.violation('sealed-wrong-error', mech,
                         f'{where}\nraised {type(res).__name__}: {res!s:.200}', witness); ok = False
-        if r_after != r_before:
+        if p_after != p_before:
           ctx.violation('sealed-tree-changed', mech,
-                        f'{where}\nbefore={r_before[:300]}\nafter ={r_after[:300]}', witness); ok = False
+                        f'{where}\nprotected node before={p_before[:300]}\n'
+                        f'protected node after ={p_after[:300]}', witness); ok = False
+        elif r_after != r_before:
+          if pure:
+            ctx.violation('sealed-tree-changed', mech,
+                          f'{where}\nbefore={r_before[:300]}\nafter ={r_after[:300]}', witness); ok = False
+          else:
+            c['dont_care_mixed_batch_applied_outside_protected'] += 1
         c['refused_ok'] += ok
         verdict = 'refused'
       elif step['op'] in ACCESSOR_OPS and not eff_writable:
         n_ref += 1
         c['expected_refused'] += 1
-        mech = f"{step['op']}/{how_protected(cfg, 'writable')}"
+        mech = f"{op_name(step)}/{how_protected(cfg, 'writable')}"
         ok = True
         if status == 'ok':
           ctx.violation('accessor-write-succeeded', mech, where, witness); ok = False
@@ -267,7 +378,8 @@ def run_case(ctx, i):
         # effectively writable: must behave exactly as on the unprotected twin
         n_all += 1
         c['expected_allowed'] += 1
-        mech = step['op']
+        c['expected_allowed_from_above'] += above
+        mech = op_name(step)
         ok = True
         if status != 'ok':
           ctx.violation('unprotected-refused', mech,
@@ -282,7 +394,7 @@ def run_case(ctx, i):
         if status == 'raise' and r_after != r_before:
           ctx.violation('refused-but-changed', step['op'], where, witness)
         verdict = 'dont-care'
-      log.append((step['op'], cfg_name(cfg), verdict))
+      log.append((op_name(step), cfg_name(cfg), verdict))
   if n_ref >= 4 and n_all >= 2:
     ctx.mark_nontrivial(tuple(log))
   if i < 2:
